@@ -20,7 +20,8 @@ LEVEL = "exploration"
 REQUIRED_CLASSES = ["count-ok", "stats-ok"]
 RULE = ("(1) every integer in [0, 2^22) quick / [0, 2^26) thorough in blocks "
         "of 2^16, plus windows of +-4096 around m*1024^k (k=1..6, 13 "
-        "mantissas m) and +-64 around m*2^e (e=60..70); a count is "
+        "mantissas m) and +-64 around m*2^e (e=60..70), and a ladder of "
+        "7 800 values m*2^k passed as numpy int32/int64/uint64; a count is "
         "non-trivial when it needs a prefix (>= 1000). (2) product of volume "
         "sizes x data types x channels x target chunk sizes x storage "
         "options: the real command sequence (generate-info, "
@@ -100,6 +101,39 @@ def _run_range(col, lo, hi):
         for tag, exp, obs in bad:
             col.violation("C20/readable_count/" + tag, _count_case(n), exp,
                           obs)
+
+
+def _run_numpy_ints(col):
+    """the statistics script passes numpy integers (np.prod results), whose
+    arithmetic wraps where Python's does not: a ladder m * 2^k (41 mantissas
+    in [1,2), k = 0..63) and its neighbours, as int32 / int64 / uint64"""
+    from neuroglancer_scripts.utils import readable_count
+    for k in range(0, 64):
+        for j in range(41):
+            c = (40 + j) * (1 << k) // 40
+            for n in (c - 1, c, c + 1):
+                if n < 0:
+                    continue
+                for t in (np.int32, np.int64, np.uint64):
+                    if n > np.iinfo(t).max:
+                        continue
+                    try:
+                        with np.errstate(all="ignore"):
+                            s = readable_count(t(n))
+                    except Exception as exc:
+                        col.ev(1, 1, "count-exception")
+                        col.violation("C20/readable_count/exception/"
+                                      + type(exc).__name__,
+                                      dict(_count_case(n), numpy=t.__name__),
+                                      "a string", repr(exc))
+                        continue
+                    bad = check_count(n, s)
+                    col.ev(1, 1 if n >= 1000 else 0,
+                           "count-ok" if not bad else "count-bad")
+                    for tag, exp, obs in bad:
+                        col.violation("C20/readable_count/" + tag,
+                                      dict(_count_case(n), numpy=t.__name__),
+                                      exp, obs)
 
 
 def _windows():
@@ -367,6 +401,9 @@ INFO_ONLY = [
     ([[64 * 2 ** 53 + 1, 1, 1], [32 * 2 ** 53 + 1, 1, 1]], 64, "uint8", 1),
     ([[2 ** 31 + 1, 2, 1]], 2, "float32", 1),
     ([[100000, 100000, 100]], 1, "uint8", 1),
+    ([[1013309916158361600 // 4, 2, 2]], 64, "uint8", 1),      # 900 PiB
+    ([[675539944105574400 // 4, 2, 2], [337769972052787200 // 4, 2, 2]], 64,
+     "uint8", 1),                                             # 600 + 300 PiB
 ]
 
 
@@ -450,6 +487,7 @@ def units(tier):
     u.append({"kind": "statsbatch", "cases": [
         {"kind": "stats-multi", "size": list(sz), "chunk_sizes": css,
          "dtype": dt, "channels": nch} for sz, css, dt, nch in MULTI]})
+    u.append({"kind": "numpy-ints"})
     u.append({"kind": "statsbatch", "cases": [
         {"kind": "stats-info-only", "sizes": sizes, "chunk": cs,
          "dtype": dt, "channels": nch} for sizes, cs, dt, nch in INFO_ONLY]})
@@ -467,6 +505,9 @@ def run_unit(u):
     if u["kind"] == "range":
         _run_range(col, u["lo"], u["hi"])
         col.sample(_count_case(u["hi"] - 1))
+    elif u["kind"] == "numpy-ints":
+        _run_numpy_ints(col)
+        col.sample(dict(_count_case(1013309916158361600), numpy="int64"))
     elif u["kind"] == "windows":
         for lo, hi in u["w"]:
             _run_range(col, lo, hi)
@@ -485,6 +526,11 @@ def run_unit(u):
 
 def replay(case):
     col = Collector()
+    if case["kind"] == "count" and case.get("numpy"):
+        _run_numpy_ints(col)
+        return [r for r in col.records()
+                if r["case"].get("n") == case["n"]
+                and r["case"].get("numpy") == case["numpy"]]
     if case["kind"] == "count":
         _run_range(col, case["n"], case["n"] + 1)
     elif case["kind"] == "stats-multi":
